@@ -247,3 +247,29 @@ def install_k07():
         if key not in _installed:
             mod._compile_pattern_re = icontract.ensure(make(legacy), error=K16Broken)(mod._compile_pattern_re)
             _installed.add(key)
+
+
+def install_engine_monitor():
+    """Which engine (legacy v1 / new v2) handled incr, version parsing and rewriting in an invocation."""
+    harness.bv()
+    import bumpver.v1rewrite as v1rewrite
+    import bumpver.v1version as v1version
+    import bumpver.v2rewrite as v2rewrite
+    import bumpver.v2version as v2version
+    for mod, tag in ((v1version, "v1"), (v2version, "v2")):
+        _wrap(mod, "incr", before=lambda *a, _t=tag, **kw: harness.trace_event("engine", fn="incr", engine=_t))
+        _wrap(mod, "parse_version_info",
+              before=lambda *a, _t=tag, **kw: harness.trace_event("engine", fn="parse_version_info", engine=_t))
+        _wrap(mod, "is_valid", before=lambda *a, _t=tag, **kw: harness.trace_event("engine", fn="is_valid", engine=_t))
+    for mod, tag in ((v1rewrite, "v1"), (v2rewrite, "v2")):
+        _wrap(mod, "rewrite_files",
+              before=lambda *a, _t=tag, **kw: harness.trace_event("engine", fn="rewrite_files", engine=_t))
+        _wrap(mod, "diff", before=lambda *a, _t=tag, **kw: harness.trace_event("engine", fn="diff", engine=_t))
+
+
+def engines_used(trace):
+    out = {}
+    for n, info in trace:
+        if n == "engine":
+            out.setdefault(info["fn"], set()).add(info["engine"])
+    return out
